@@ -66,7 +66,15 @@ func (h *Handler) HandleMessage(msg stanza.Message, r xmlstream.TokenReadEncoder
 	if err != nil {
 		return err
 	}
-	start := tok.(xml.StartElement)
+	// Skip character data and the like in front of the first payload.
+	start, ok := tok.(xml.StartElement)
+	for !ok {
+		tok, err = r.Token()
+		if err != nil {
+			return err
+		}
+		start, ok = tok.(xml.StartElement)
+	}
 	var queryID string
 	for _, attr := range start.Attr {
 		if attr.Name.Local == "queryid" {
